@@ -39,6 +39,10 @@ struct Access {
     template<typename D> static size_t buffer_max_size(const D &d) { return d.buffer_max_size; }
     template<typename D> static unsigned base(const D &d) { return d.base; }
 
+    // ---- internal::LoserTree (hook H5) ----
+    template<typename LT> static const auto &loser_cells(const LT &t) { return t.losers; }
+    template<typename LT> static size_t loser_k(const LT &t) { return t.k; }
+
     // ---- CompressedPGMIndex ----
     template<typename C> static const auto &clevels(const C &c) { return c.levels; }
     template<typename C> static const auto &slopes_table(const C &c) { return c.slopes_table; }
